@@ -23,6 +23,9 @@ pub enum After {
     /// one of the pre-sleep transactions (whose locks expired) finishes late: release by transaction id.
     /// Keys that another transaction took over meanwhile must stay with their new holder.
     ReleaseOld(u8),
+    /// one of the transactions that took expired keys over finishes: release by transaction id;
+    /// none of its locks may remain and its key list must be empty
+    ReleaseTaker(u8),
 }
 
 #[derive(Clone, Debug, Serialize, Deserialize)]
@@ -38,6 +41,7 @@ pub fn exp_strategy(_t: Tier) -> impl Strategy<Value = ExpCase> {
         1 => Just(After::Cleanup),
         2 => Just(After::CleanupGraph),
         3 => (0u8..5).prop_map(After::ReleaseOld),
+        3 => (0u8..4).prop_map(After::ReleaseTaker),
     ];
     (prop::collection::vec((0u8..5, prop::collection::vec(0..NKEYS, 1..=3), any::<bool>()), 1..8), prop::collection::vec(after, 1..4))
         .prop_map(|(before, after)| ExpCase { before, after })
@@ -69,6 +73,8 @@ pub fn exp_check(c: &ExpCase, ctx: &mut CaseCtx) -> Result<(), Fail> {
     let t_after = std::time::Instant::now();
     // key -> (new holder, when it was granted): filled on every successful takeover
     let mut taken: std::collections::BTreeMap<u8, (u64, std::time::Instant)> = std::collections::BTreeMap::new();
+    // takers in the order of their grants, with the keys each was granted
+    let mut takers: Vec<(u64, Vec<u8>)> = Vec::new();
     for a in &c.after {
         match a {
             After::Steal { keys, track } => {
@@ -82,6 +88,17 @@ pub fn exp_check(c: &ExpCase, ctx: &mut CaseCtx) -> Result<(), Fail> {
                         ctx.label("expired lock taken over by another transaction");
                         for k in keys {
                             taken.insert(*k, (thief, std::time::Instant::now()));
+                        }
+                        takers.push((thief, keys.clone()));
+                        // the reverse index lists every key the grant covers (release by id walks it)
+                        let listed: BTreeSet<String> = lm.keys_for_transaction(thief).into_iter().collect();
+                        for k in keys {
+                            if !listed.contains(&key(*k)) {
+                                ctx.fail(
+                                    "granted-key-not-indexed",
+                                    format!("tx {thief} was granted {keys:?} (k{k} over an expired lock) but keys_for_transaction({thief}) = {listed:?}"),
+                                )?;
+                            }
                         }
                         // the harness must stay well inside the thief's own 60 ms for the next read to be meaningful
                         if t_after.elapsed() < Duration::from_millis(20) {
@@ -125,6 +142,26 @@ pub fn exp_check(c: &ExpCase, ctx: &mut CaseCtx) -> Result<(), Fail> {
                 }
                 if !lm.keys_for_transaction(old).is_empty() {
                     ctx.fail("released-tx-still-indexed", format!("release({old}) left keys_for_transaction = {:?}", lm.keys_for_transaction(old)))?;
+                }
+            },
+            After::ReleaseTaker(i) => {
+                if takers.is_empty() {
+                    continue;
+                }
+                let (t, ks) = takers.remove(*i as usize % takers.len());
+                lm.release(t);
+                ctx.label("a transaction that took expired keys over was released by id");
+                ctx.set_nontrivial();
+                for k in &ks {
+                    if taken.get(k).is_some_and(|(h, _)| *h == t) {
+                        taken.remove(k);
+                    }
+                    if lm.lock_holder(&key(*k)) == Some(t) {
+                        ctx.fail("lock-left-after-release", format!("tx {t} took k{k} over from an expired holder; after release({t}) lock_holder(k{k}) is still {t}"))?;
+                    }
+                }
+                if !lm.keys_for_transaction(t).is_empty() {
+                    ctx.fail("released-tx-still-indexed", format!("release({t}) left keys_for_transaction = {:?}", lm.keys_for_transaction(t)))?;
                 }
             },
             After::Cleanup | After::CleanupGraph => {
